@@ -117,7 +117,7 @@ Definition model_probe (p : probe) : bool :=
   | PCont k _ _ _ _ _ _ _ => k <? 900
   | PScalar k _ => k <? 900
   | PReadOnly k _ => k <? 900
-  | PInst _ _ _ => false
+  | PInst _ _ _ _ => false
   end.
 
 (* codes: 11 original's values, 12 copy's values, 13 sharing pattern, 14 owner pattern, 15 probes,
